@@ -558,6 +558,224 @@ theorem insertBreak_activities (v : Veh) (moved : Option (Nat × TW)) (rtw : TW)
     rw [insertAt_countP]
     simp [breakActivity]
 
+/-! ### the break writer loses and invents no job activity -/
+
+
+
+/-- a predicate on written activities that looks at id and type only and is false of breaks -/
+structure JobPred (p : WActivity → Bool) : Prop where
+  idOnly : ∀ a b : WActivity, a.jobId = b.jobId → a.type = b.type → p a = p b
+  brk : ∀ tw, p (breakActivity tw) = false
+
+theorem stretch_jobId (rtw : TW) (a : WActivity) : (C03W.stretch rtw a).jobId = a.jobId := by
+  unfold C03W.stretch
+  split
+  · split <;> rfl
+  · rfl
+
+theorem JobPred.stretch {p : WActivity → Bool} (hp : JobPred p) (rtw : TW) (a : WActivity) : p (C03W.stretch rtw a) = p a :=
+  hp.idOnly _ _ (stretch_jobId rtw a) (stretch_type rtw a)
+
+def countActs (p : WActivity → Bool) (stops : List XStop) : Nat := (stops.map (fun s => s.activities.countP p)).sum
+
+theorem insertBreak_countP (p : WActivity → Bool) (hp : JobPred p) (v : Veh) (moved : Option (Nat × TW)) (rtw : TW) (ov bt : Int)
+    (idx : Nat) (stop : XStop) (stat : WStat) :
+    (insertBreak v moved rtw ov bt idx stop stat).1.activities.countP p = stop.activities.countP p := by
+  unfold insertBreak
+  simp only [sortByTime_count]
+  rw [List.countP_map]
+  have hc : ∀ (k : Nat) (l : List (WActivity × Nat)),
+      List.countP (p ∘ fun x => if x.2 == k then x.1 else C03W.stretch rtw x.1) l = List.countP (fun x => p x.1) l := by
+    intro k l
+    apply List.countP_congr
+    intro x _
+    simp only [Function.comp]
+    split
+    · rfl
+    · rw [hp.stretch]
+  rw [hc]
+  have hz : ∀ l : List WActivity, List.countP (fun x : WActivity × Nat => p x.1) l.zipIdx = List.countP p l := by
+    intro l
+    have : List.countP (fun x : WActivity × Nat => p x.1) l.zipIdx = List.countP p (l.zipIdx.map (·.1)) := by
+      rw [List.countP_map]; rfl
+    rw [this, List.zipIdx_map_fst]
+  rw [hz, insertAt_countP]
+  simp [hp.brk]
+
+theorem countActs_append (p : WActivity → Bool) (a b : List XStop) : countActs p (a ++ b) = countActs p a + countActs p b := by
+  simp [countActs, List.map_append, List.sum_append]
+
+theorem insertAt_countActs (p : WActivity → Bool) (stops : List XStop) (k : Nat) (x : XStop) (hx : x.activities = []) :
+    countActs p (insertAt stops k x) = countActs p stops := by
+  have h := countActs_append p (stops.take k) (x :: stops.drop k)
+  have h2 := countActs_append p (stops.take k) (stops.drop k)
+  rw [List.take_append_drop] at h2
+  simp only [insertAt]
+  rw [h, h2]
+  simp [countActs, hx]
+
+theorem foldl_insertBreak_countActs (p : WActivity → Bool) (hp : JobPred p) (v : Veh) (moved : Option (Nat × TW)) (rtw : TW)
+    (ov bt : Int) (l : List (XStop × Nat)) (acc : List XStop × WStat) :
+    countActs p (l.foldl (fun (acc : List XStop × WStat) x =>
+        if twIntersectsX (x.1.arrival, x.1.departure) rtw then
+          let (s', st') := insertBreak v moved rtw ov bt x.2 x.1 acc.2
+          (acc.1 ++ [s'], st')
+        else (acc.1 ++ [x.1], acc.2)) acc).1
+      = countActs p acc.1 + countActs p (l.map (·.1)) := by
+  induction l generalizing acc with
+  | nil => simp [countActs]
+  | cons x r ih =>
+    simp only [List.foldl_cons, List.map_cons]
+    rw [ih]
+    split
+    · simp only [countActs_append]
+      have := insertBreak_countP p hp v moved rtw ov bt x.2 x.1 acc.2
+      simp only [countActs, List.map_cons, List.map_nil, List.sum_cons, List.sum_nil, this]
+      omega
+    · simp only [countActs_append]
+      simp only [countActs, List.map_cons, List.map_nil, List.sum_cons, List.sum_nil]
+      omega
+
+theorem insertReservedAt_countActs (p : WActivity → Bool) (hp : JobPred p) (v : Veh) (acts : List RAct) (shift : TW) (t : XTour)
+    (rs : Int) (rtw : TW) (dur : Int) : countActs p (insertReservedAt v acts shift t rs rtw dur).stops = countActs p t.stops := by
+  unfold insertReservedAt
+  split
+  · rfl
+  · simp only
+    rw [foldl_insertBreak_countActs p hp]
+    simp only [countActs, List.map_nil, List.sum_nil, Nat.zero_add, List.zipIdx_map_fst]
+    split
+    · rename_i i load _
+      exact insertAt_countActs p t.stops (i + 1) _ rfl
+    · rfl
+
+theorem insertOneReserved_countActs (p : WActivity → Bool) (hp : JobPred p) (v : Veh) (acts : List RAct) (shift : TW) (t : XTour)
+    (r : Reserved) : countActs p (insertOneReserved v acts shift t r).stops = countActs p t.stops := by
+  unfold insertOneReserved
+  exact insertReservedAt_countActs p hp v acts shift t _ _ _
+
+theorem insertBreaks_countActs (p : WActivity → Bool) (hp : JobPred p) (v : Veh) (acts : List RAct) (openEnd : Bool)
+    (rs : List Reserved) (t : XTour) : countActs p (insertBreaks v acts openEnd rs t).stops = countActs p t.stops := by
+  unfold insertBreaks
+  split
+  · rename_i st en _ _
+    generalize (st.dep, if openEnd = true then en.dep else en.arr) = shift
+    induction rs generalizing t with
+    | nil => rfl
+    | cons r rest ih =>
+      simp only [List.foldl_cons]
+      rw [ih, insertOneReserved_countActs p hp]
+  · rfl
+
+theorem tidyX_countP (p : WActivity → Bool) (hp : JobPred p) (s : XStop) : (tidyX s).activities.countP p = s.activities.countP p := by
+  unfold tidyX
+  split
+  · rename_i a h
+    simp only [h, List.countP_cons, List.countP_nil]
+    have key : ∀ b : WActivity, b.jobId = a.jobId → b.type = a.type →
+        (0 + if p b = true then 1 else 0) = (0 + if p a = true then 1 else 0) := fun b h1 h2 => by rw [hp.idOnly b a h1 h2]
+    exact key _ rfl rfl
+  · rfl
+
+theorem countActs_map_tidyX (p : WActivity → Bool) (hp : JobPred p) (l : List XStop) : countActs p (l.map tidyX) = countActs p l := by
+  simp [countActs, List.map_map, Function.comp_def, tidyX_countP p hp]
+
+/-- **the break writer loses and invents no job activity**: whatever reserved times the vehicle has, the written tour holds
+    every activity counted by an id-and-type predicate (that is false of breaks) exactly as often as the tour written without
+    reserved times - and that one holds the route's activities (`writeTour_activities`) -/
+theorem writeTourX_keeps_jobs (p : WActivity → Bool) (hp : JobPred p) (v : Veh) (acts : List RAct) (openEnd : Bool)
+    (rs : List Reserved) (tx : XTour) (t : WTour) (hx : writeTourX v acts openEnd rs = some tx) (ht : writeTour v acts = some t) :
+    countActs p tx.stops = countActs p (t.stops.map WStop.toX) := by
+  unfold writeTourX at hx
+  unfold writeTour at ht
+  cases hf : foldRoute v acts with
+  | none => simp [hf] at hx
+  | some s =>
+    simp only [hf, Option.map_some, Option.some.injEq] at hx ht
+    subst hx ht
+    simp only
+    rw [countActs_map_tidyX p hp, insertBreaks_countActs p hp]
+    have e : (s.stops.map tidyStop).map WStop.toX = (s.stops.map WStop.toX).map tidyX := by
+      simp [List.map_map, Function.comp_def, tidyX_toX]
+    rw [e, countActs_map_tidyX p hp]
+
+/-- non-vacuity: "is an activity of job j1" is such a predicate -/
+example : JobPred (fun a => a.jobId == "j1") :=
+  ⟨fun a b h _ => by simp [h], fun _ => by simp [breakActivity]⟩
+
+/-- what ONE call of `insert_break` does to the timing entries (the break entry itself is raised by the caller, by the whole
+    break): a break written into a point stop takes its overlap with waiting time off `waiting` (S52); a break in a transit stop,
+    or one moved in front of a leg, takes the whole break off `driving` (the core had prolonged the travel); nothing else moves -/
+def splitOf (st : WStat) : Int := st.driving + st.serving + st.waiting + st.breakT
+
+theorem insertBreak_split (v : Veh) (moved : Option (Nat × TW)) (rtw : TW) (ov bt : Int) (idx : Nat) (stop : XStop) (stat : WStat) :
+    let movedHere := match moved with | some (leg, _) => leg == idx | none => false
+    let st' := (insertBreak v moved rtw ov bt idx stop stat).2
+    splitOf st' = splitOf stat -
+      (match stop.loc with
+       | some _ => if movedHere then bt else if bt == 0 then 0 else ov
+       | none => if movedHere then bt + bt else bt)
+    ∧ st'.duration = stat.duration ∧ st'.distance = stat.distance := by
+  unfold insertBreak splitOf
+  cases hm : moved with
+  | none =>
+    cases hl : stop.loc with
+    | none => simp [hm, hl]; omega
+    | some l =>
+      by_cases hb : bt = 0
+      · simp [hm, hl, hb]
+      · simp [hm, hl, hb]; omega
+  | some m =>
+    obtain ⟨leg, tw⟩ := m
+    by_cases hleg : leg = idx
+    · cases hl : stop.loc with
+      | none => simp [hm, hl, hleg]; omega
+      | some l => simp [hm, hl, hleg]; omega
+    · cases hl : stop.loc with
+      | none => simp [hm, hl, hleg]; omega
+      | some l =>
+        by_cases hb : bt = 0
+        · simp [hm, hl, hleg, hb]
+        · simp [hm, hl, hleg, hb]; omega
+
+theorem twOverlap_nonneg (a b : TW) (o : TW) (ha : a.1 ≤ a.2) (hb : b.1 ≤ b.2) (h : twOverlap a b = some o) : 0 ≤ o.2 - o.1 := by
+  unfold twOverlap at h
+  split at h
+  · rename_i hi
+    simp only [Option.some.injEq] at h
+    subst h
+    simp only [twIntersects, Bool.and_eq_true, decide_eq_true_eq] at hi
+    simp only [Int.max_def, Int.min_def]
+    split <;> split <;> omega
+  · simp at h
+
+theorem ovOf_nonneg (rtw : TW) (a : RAct) (ha : a.arr ≤ a.tws) (hb : rtw.1 ≤ rtw.2) : 0 ≤ ovOf rtw a := by
+  unfold ovOf
+  cases h : twOverlap (a.arr, a.tws) rtw with
+  | none => simp
+  | some o => exact twOverlap_nonneg _ _ _ ha hb h
+
+theorem foldl_ovOf_nonneg (l : List RAct) (rtw : TW) (hb : rtw.1 ≤ rtw.2) (hl : ∀ a ∈ l, a.arr ≤ a.tws) (x : Int) (hx : 0 ≤ x) :
+    0 ≤ l.foldl (fun acc a => acc + ovOf rtw a) x := by
+  induction l generalizing x with
+  | nil => exact hx
+  | cons a r ih =>
+    simp only [List.foldl_cons]
+    apply ih (fun b hb' => hl b (List.mem_cons_of_mem _ hb'))
+    have := ovOf_nonneg rtw a (hl a (List.mem_cons_self ..)) hb
+    omega
+
+/-- the part of a break that is taken while waiting lies between nothing and the whole break -/
+theorem waitingOverlap_bounds (acts : List RAct) (rtw : TW) (dur : Int) (h : 0 ≤ dur) (hb : rtw.1 ≤ rtw.2) :
+    0 ≤ waitingOverlap acts rtw dur ∧ waitingOverlap acts rtw dur ≤ dur := by
+  unfold waitingOverlap
+  have := foldl_ovOf_nonneg (acts.filter (fun a => decide (a.arr < a.tws))) rtw hb
+    (fun a ha => by
+      have := (List.mem_filter.mp ha).2
+      simp only [decide_eq_true_eq] at this
+      omega) 0 (by omega)
+  constructor <;> omega
+
 /-! ## the commute-aware writer agrees with the plain writer on routes without commute -/
 
 def CStop.plain (s : CStop) : WStop :=
